@@ -416,6 +416,45 @@ func (ex *Exec) choose(conds []*Term) int {
 	return d.chosen
 }
 
+// chooseFree forks n ways without consulting the solver: the caller
+// guarantees every alternative is feasible (a fresh unconstrained choice).
+func (ex *Exec) chooseFree(conds []*Term) int {
+	if ex.speculating > 0 {
+		panic(specAbort{})
+	}
+	if ex.pos < len(ex.trail) {
+		d := ex.trail[ex.pos]
+		ex.pos++
+		ex.addPC(conds[d.chosen])
+		return d.chosen
+	}
+	d := decision{chosen: 0}
+	for i := 1; i < len(conds); i++ {
+		d.alts = append(d.alts, i)
+	}
+	if len(conds) > 1 {
+		ex.St.Forks++
+		if ex.donate != nil {
+			var keep []int
+			for _, a := range d.alts {
+				prefix := make([]pick, 0, len(ex.trail)+1)
+				for k := range ex.trail {
+					prefix = append(prefix, pick{I: ex.trail[k].chosen, V: ex.trail[k].value()})
+				}
+				prefix = append(prefix, pick{I: a})
+				if !ex.donate(prefix) {
+					keep = append(keep, a)
+				}
+			}
+			d.alts = keep
+		}
+	}
+	ex.trail = append(ex.trail, d)
+	ex.pos++
+	ex.addPC(conds[0])
+	return 0
+}
+
 // branch decides a boolean condition, forking if both sides are feasible.
 func (ex *Exec) branch(c *Term) bool {
 	if c.IsConst() {
@@ -489,7 +528,7 @@ func (ex *Exec) concretizeAny(t *Term, what string) uint64 {
 	var vals []uint64
 	excl := []*Term{}
 	pv := ex.varFor(t)
-	for len(vals) < 65 {
+	for len(vals) < 257 {
 		lits := append(append([]*Term{}, ex.pc...), excl...)
 		r, m := ex.check(lits, []*Term{pv})
 		if r == Unsat {
@@ -502,8 +541,8 @@ func (ex *Exec) concretizeAny(t *Term, what string) uint64 {
 		vals = append(vals, v)
 		excl = append(excl, ex.C.Not(ex.C.Eq(t, ex.C.Const(t.W, v))))
 	}
-	if len(vals) > 64 {
-		panic(engineErr("concretizeAny(%s): more than 64 feasible values", what))
+	if len(vals) > 256 {
+		panic(engineErr("concretizeAny(%s): more than 256 feasible values", what))
 	}
 	if len(vals) == 0 {
 		panic(pathAbort{"concretizeAny-empty"})
